@@ -26,6 +26,7 @@ THEOREMS = [
     "Ural.Props.C03.fingerprint_of_normalize_eq_partial",
     "Ural.Props.C03.fingerprint_canonicalize_partial",
     "Ural.Props.C03.not_fullFingerprintOfNormalizeEq",
+    "Ural.Props.C03.not_fullNormalizeCanonicalize",
 ]
 TABLE_OBLIGATIONS = [
     "Ural.Props.C03.tables_unsafe_sets",
